@@ -79,7 +79,8 @@ mod verif_codecs {
     #[kani::stub(TableWriter::write_slice, write_slice_sink)]
     #[kani::stub(TableWriter::pad_to_2byte_aligned, pad_sink)]
     fn simple_glyph_points_roundtrip_2() {
-        use crate::tables::glyf::{Bbox, Contour, CurvePoint, SimpleGlyph};
+        use crate::tables::glyf::{Bbox, Contour, SimpleGlyph};
+        use read_fonts::tables::glyf::CurvePoint;
         let (x0, y0, x1, y1): (i16, i16, i16, i16) = (kani::any(), kani::any(), kani::any(), kani::any());
         // deltas must be representable (the writer's documented domain)
         kani::assume((x1 as i32 - x0 as i32).abs() <= 32767 && (y1 as i32 - y0 as i32).abs() <= 32767);
